@@ -371,7 +371,7 @@ def judge(prop, h, res):
             if declared_reject and A.tool_error is None:
                 out["findings"].append({"prop": "C02", "sec": sec, "what": "a declared superficial loss that contradicts the computed one (or a sale without loss) is accepted",
                                         "detail": {"reason": A.ref_reject[1], "date": str(A.ref_reject[0].td), "declared": A.ref_reject[0].row.get("sfl")}})
-            if tool_declared and not declared_reject and "sfl_threshold_tie" not in A.features:
+            if tool_declared and not declared_reject and not ("sfl_threshold_tie" in A.features and tie_rejection_consistent(A.tool_error)):
                 out["findings"].append({"prop": "C02", "sec": sec, "what": "a declared superficial loss within 0.001 of the computed one (or forced) is rejected",
                                         "detail": {"msg": A.tool_error}})
         if prop == "C04":
@@ -410,7 +410,8 @@ def judge_c04(out, h, sec, A, table):
             if sec not in A.tool_error and False:
                 pass
     else:
-        if A.tool_error is not None and "sfl_threshold_tie" in A.features and "superficial loss was specified" in A.tool_error:
+        if (A.tool_error is not None and "sfl_threshold_tie" in A.features and "superficial loss was specified" in A.tool_error
+                and tie_rejection_consistent(A.tool_error)):
             c["threshold_ties_rejected"] = c.get("threshold_ties_rejected", 0) + 1     # undecidable at the threshold itself
         elif A.tool_error is not None:
             margin = rounding_margin(A.tool_error)
@@ -461,6 +462,16 @@ def lookahead_dust(h, sec, msg):
                         if any(pf not in (2, 5) for pf in ref.prime_factors_small(q.denominator)):
                             return True
     return False
+
+
+def tie_rejection_consistent(msg):
+    """For a declared value on the 0.001 threshold: the tool quotes '(specified) and the computed value (computed)';
+    the rejection is tolerated only if those two numbers are strictly more than 0.001 apart (rounding noise in the
+    computed value), not when they are exactly 0.001 apart."""
+    m = re.search(r"specified value \((-?[\d.]+)\) and the computed value \((-?[\d.]+)\)", msg or "")
+    if not m:
+        return False
+    return abs(Fraction(m.group(1)) - Fraction(m.group(2))) > Fraction(1, 1000)
 
 
 def rounding_margin(msg):
